@@ -406,6 +406,15 @@ def special_files(ctx):
             before_rows = [] if mark == "Onset" else [[(0.5, group_text(("Onset", "A")))]]
             files.append((before_rows + [[(2.0, group_text(("Inset", "A")))], [(1.0, doubled)]],
                           before + [[("Inset", "A")], [(mark, "A"), (mark, second)]], "doubled-delayed-marker"))
+    # large onsets (seconds since 1970): rows an eighth of a second apart are different time points
+    T0 = 1700000000.0
+    for gap in (0.125, 0.001):
+        files.append(([[(T0, group_text(("Onset", "A")))], [(T0 + gap, group_text(("Offset", "A")))],
+                       [(T0 + 2 * gap, group_text(("Inset", "A")))]],
+                      [[("Onset", "A")], [("Offset", "A")], [("Inset", "A")]], "large-onsets"))
+        files.append(([[(T0, group_text(("Onset", "A"), "250 ms"))], [(T0 + 0.25 + gap, group_text(("Offset", "A")))],
+                       [(T0 + 0.25 + 2 * gap, group_text(("Offset", "A")))]],
+                      [[("Onset", "A")], [("Offset", "A")], [("Offset", "A")]], "large-onsets"))
     # marker rows that draw a warning only (extension, missing unit)
     for extra in ("Item/Gizmo", "Label/Abc", "(Item/Gizmo, Blue)"):
         for tail_ in (("Offset", "A"), ("Inset", "A")):
@@ -446,6 +455,8 @@ UNSORTED_BASES = [
     [("1.0", "(Def/A, Onset)"), ("2.0", "(Def/B/x, Onset)"), ("3.0", "Zzqnonsense, (Def/A, Offset)"), ("4.0", "(Def/A, Inset)"),
      ("5.0", "(Def/B/x, Offset)")],
     [("1.0", "Zzqnonsense"), ("2.0", "(Def/A, Offset)"), ("3.0", "(Def/A, Onset)"), ("4.0", "(Def/A, Onset, Delay/0.5 s)")],
+    # onsets whose order as text differs from their order as numbers (no Delay group in the file)
+    [("3.0", "Red"), ("9.0", "(Def/A, Onset)"), ("10.0", "(Def/A, Offset)"), ("20.0", "(Def/A, Inset)"), ("100.0", "(Def/A, Onset)")],
 ]
 
 
